@@ -105,11 +105,20 @@ type World struct {
 	salt uint32 // makes the byte code of every FlexToken unique
 }
 
+// GenesisBalanceOf is every user's genesis balance of CoinDenoms[i]: a few thousand units for the even entries, 2^100 + 7 for
+// the odd ones (so that successful conversions also carry amounts beyond every machine-integer limit).
+func GenesisBalanceOf(i int) sdk.Int {
+	if i%2 == 1 {
+		return sdk.NewIntFromBigInt(new(big.Int).Lsh(big.NewInt(1), 100)).AddRaw(7)
+	}
+	return sdk.NewInt(GenesisCoinBalance)
+}
+
 // NewWorld builds a fresh chain with three users holding GenesisCoinBalance of every coin.
 func NewWorld() *World {
 	var extra sdk.Coins
-	for _, d := range CoinDenoms {
-		extra = extra.Add(sdk.NewInt64Coin(d, GenesisCoinBalance))
+	for i, d := range CoinDenoms {
+		extra = extra.Add(sdk.NewCoin(d, GenesisBalanceOf(i)))
 	}
 	c := kit.NewChain("teleport_9000-1", kit.ChainOpts{Seed: []byte("aggsim"), NumAccounts: 3, ExtraCoins: extra})
 	w := &World{
@@ -290,7 +299,12 @@ func (w *World) DeployToken(kind TokenKind, user kit.Account, name, symbol strin
 	}
 	if each > 0 {
 		for _, u := range w.Users {
-			data, err := ABI.Pack("mint", u.Addr, big.NewInt(each))
+			amount := big.NewInt(each)
+			if len(w.Tokens)%2 == 1 {
+				// every second deployed token is held in amounts beyond every machine-integer limit
+				amount = new(big.Int).Add(new(big.Int).Lsh(big.NewInt(1), 100), amount)
+			}
+			data, err := ABI.Pack("mint", u.Addr, amount)
 			kit.Must(err, "pack mint")
 			res := w.C.DeliverEth(user, &tok.Addr, nil, data)
 			if !res.Succeeded() {
